@@ -31,12 +31,14 @@ def boxes(quick):
                             out.append(dict(cfg, return_results=False))
                             out.append(dict(cfg, source='callable'))
                             out.append(dict(cfg, enqueue_fn='always'))
+                            out.append(dict(cfg, torn=True))
                             if workers >= 2:
                                 out.append(dict(cfg, immortal=[1]))
                                 for efn in ('w0odd', 'w0all', 'parity'):
                                     out.append(dict(cfg, enqueue_fn=efn, immortal=[1] if efn != 'parity' else [0, 1]))
                         if workers == 3 and ninputs in (3, 4) and deaths == 1 and extra <= 1:
                             out.append(dict(cfg, enqueue_fn='w0odd', immortal=[1]))
+                            out.append(dict(cfg, torn=True))
                         if ninputs in (3, 4) and deaths <= 1 and extra <= 1:
                             out.append(dict(cfg, poison=[2]))
                             if ninputs == 4:
